@@ -793,8 +793,8 @@ func runC20Race(c *fw.Ctx, item *int64) {
 		}
 		sc := c20Scenario(c, p)
 		bound := 1
-		if c.Thorough() || (len(p.Threads) == 3 && p.Threads[2] == "CancelCtx") {
-			bound = 2
+		if c.Thorough() || (len(p.Threads) == 3 && p.Threads[2] == "CancelCtx" && p.Store != "file") {
+			bound = 2 // (quick, file store: 1 - every file-system call is a point there, the scenario alone took the budget)
 		}
 		n := exploreRace(c, sc, bound, &seen)
 		c.Note("race_mode_execs", n)
